@@ -139,7 +139,7 @@ func init() {
 		Technique: "static analysis: SSA field-event typestate of the lazy-transpose triple, unique-owner analysis of access patterns, sibling comparison of per-width and per-build transpose kernels and of the two transposed-index computations, path rules on Transpose/UT",
 		Explain: "Decides: (T1) whoever gives an object a saved access pattern (old) also gives it transposeWith and AP; (T2) old and transposeWith are cleared together; (T4) Transpose recomputes the default strides of the current shape by data order and installs them after the move and discards the thunk, UT restores exactly the saved AP, calcStrides selects the routine by order; (T6) Dense.transposeIndex (in-place build) and TransposeIndex accumulate the same sum oldCoord[pattern[k]]*newStrides[k]; (K1w) the 1/2/4/8-byte transpose kernels are one algorithm, in both builds; (O8) SafeT/T(api)/Transpose(api)/Clone hand the copy its own access patterns (no alias of the source's shape/strides, so undoing or materialising one tensor cannot wipe the other); (B1) both transpose builds declare the same functions. " +
 			"Not decided: that the permutation arithmetic (UnsafePermute, cycle following, iterator order) is the right permutation; the composition law.",
-		Quick:    []string{"default", "inplacetranspose"},
+		Quick: []string{"default", "inplacetranspose"},
 		Run: func(rc *rules.RC) {
 			rules.T12(rc)
 			rules.T4(rc)
@@ -183,6 +183,7 @@ func init() {
 			rules.O123f(rc, red)
 			rules.O8f(rc, red, 0)
 			rules.P2(rc, red, 12)
+			rules.EC(rc, fileFilterName("defaultengine_mapreduce.go", "defaultengine_argmethods.go", "dense_reduction_methods.go", "dense_argmethods.go", "api_reduction.go", "dense_mapreduce.go"), 14)
 			rules.LGuards(rc, "C08")
 		},
 	})
@@ -243,6 +244,7 @@ func init() {
 			rules.O7(rc, oa)
 			rules.O8f(rc, lin, 0)
 			rules.P2(rc, lin, 15)
+			rules.EC(rc, fileFilterName("defaultengine_linalg.go", "dense_linalg.go", "api_arith.go"), 20)
 		},
 	})
 	register(&Property{
@@ -316,7 +318,9 @@ func init() {
 			rules.LGuards(rc, "C20")
 			rules.K3(rc, fileFilter("defaultenginefloat32.go", "defaultenginefloat64.go"), 0, 0)
 			fams := rules.Families(rc.P)
-			rules.K1(rc, fams, func(f string) bool { return strings.HasPrefix(f, "tensor.(Float") || strings.HasPrefix(f, "tensor.prepData") || strings.HasPrefix(f, "tensor.handleFuncOpts") }, 2)
+			rules.K1(rc, fams, func(f string) bool {
+				return strings.HasPrefix(f, "tensor.(Float") || strings.HasPrefix(f, "tensor.prepData") || strings.HasPrefix(f, "tensor.handleFuncOpts")
+			}, 2)
 			rules.T12(rc)
 			rules.T6(rc)
 			rules.K1w(rc, func(stem string) bool { return strings.Contains(stem, "denseTranspose") }, 4)
@@ -361,6 +365,8 @@ func init() {
 			rules.M2(rc, nil, 40, 900)
 			rules.M7(rc, 300)
 			rules.L0(rc, nil)
+			rules.M4(rc, nil, 40)
+			rules.EC(rc, fileFilterName("defaultengine_prep.go", "defaultengine_arith.go", "defaultengine_cmp.go", "defaultengine_unary.go", "defaultengine_minmax.go", "defaultengine_misc.go", "defaultengine_mapreduce.go", "dense_linalg.go", "utils.go", "flags.go"), 50)
 		},
 	})
 	kmExplain := func(what, groups string) string {
